@@ -188,13 +188,18 @@ def run(prop: str, repo: str, seed: int = 0, jobs: Optional[int] = None):
     b = [r for r in res if r[1] == 'breaking']
     g = [r for r in res if r[1] == 'benign']
     skipped = [r for r in res if r[2] == 'skipped']
+    # a behaviour-preserving refactoring the analysis cannot follow is answered "unknown" (exit 2), never with an alarm: that
+    # outcome is recorded, and only an alarm on such a tree (or a missed / unanalysable breaking change) fails the self-test
+    unknown = [r for r in g if r[2] == 'analysis-error']
     failed = [f'{r[0]} ({r[1]}): {r[2]} {r[3]}' for r in res
-              if r[2] in ('missed', 'false-alarm', 'error', 'analysis-error', 'wrong-rule')]
+              if r[2] in ('missed', 'false-alarm', 'error', 'wrong-rule') or (r[2] == 'analysis-error' and r[1] != 'benign')]
     bf = len([r for r in b if r[2] == 'flagged'])
     gs = len([r for r in g if r[2] == 'silent'])
     return {
         'summary': f'breaking {bf}/{len(b) - len([r for r in b if r[2] == "skipped"])} flagged, '
-                   f'benign {gs}/{len(g) - len([r for r in g if r[2] == "skipped"])} silent, {len(skipped)} skipped',
+                   f'benign {gs}/{len(g) - len([r for r in g if r[2] == "skipped"])} silent'
+                   + (f' ({len(unknown)} not followed: unknown)' if unknown else '') + f', {len(skipped)} skipped',
+        'benign_unknown': [r[0] for r in unknown],
         'breaking_flagged': bf, 'breaking_total': len(b), 'benign_silent': gs, 'benign_total': len(g),
         'skipped': [r[0] for r in skipped],
         'failed': failed,
